@@ -1020,11 +1020,22 @@ pub fn run(ctx: &mut Ctx) {
         // a function that was just put in the place of an import gets function-exit code next (half of the time): special modes on
         // functions the parser never counted as local
         let mut followup: Option<(usize, bool)> = None;
+        // before two consecutive encodes, one history in three first deletes every export of the base module (a module whose exports
+        // are all tombstones: the export section is still written, empty)
+        let n_base_exports = w.export_deleted.len();
+        let purge_exports = double_encode && enumerated.is_none() && n_base_exports > 0 && r.chance(1, 3);
+        if purge_exports {
+            nops = nops.max(n_base_exports + 1);
+            ctx.count("history=all-exports-deleted-then-two-encodes");
+        }
         for step in 0..=nops {
             let mut last = step == nops;
             // ---- choose an operation
             let mut chosen: Option<Op> = None;
-            if let (Some((h, delete)), false, true) = (followup.take(), last, enumerated.is_none()) {
+            if purge_exports && !last && step < n_base_exports {
+                chosen = Some(Op::Dex { pos: step });
+            }
+            if let (Some((h, delete)), false, true, true) = (followup.take(), last, enumerated.is_none(), chosen.is_none()) {
                 if delete {
                     // … or is deleted again (an import slot that was vacated twice)
                     if w.handles[h].cur.is_some() {
